@@ -122,6 +122,46 @@ theorem c16_var1_split_is_derivative (G : K) (sq : K → K) (tptype : Bool) (act
   rw [h1] at h2
   simp only [accBasicSplit, accVar1Split, List.map_append, h2.1, h2.2]
 
+/-- the same under `gravity_ignore_terms` = 1 (WHFast/Jacobi: pair (1,0) skipped) or 2
+    (every pair with particle 0 skipped): force and first-order variational loops skip the
+    same pairs (gravity.c:145-146 vs 1006-1007), so the derivative relation is preserved -/
+theorem c16_var1_ignore_terms (ign : Nat) (G : K) (sq : K → K) (ps : List (RV1 K))
+    (h : ps.Pairwise (fun e l => PairOK sq l.1 e.1)) :
+    (accBasicIgn ign (Dual.const G) Scalar.zero (Dual.sqrtLift sq) (ps.map dz1)).map epsV
+        = accVar1Ign ign G sq ps := by
+  have key : ∀ (done rest : List (RV1 K)) (accs : List (V3 (Dual K))),
+      (∀ pi ∈ rest, ∀ pj ∈ done, PairOK sq pi.1 pj.1) → rest.Pairwise (fun e l => PairOK sq l.1 e.1) →
+      (loopLF V3.add V3.zero (forcePair (Dual.const G) Scalar.zero (Dual.sqrtLift sq)) (done.map dz1) accs
+          (rest.map dz1)).map epsV
+        = loopLF V3.add V3.zero (var1Pair G sq) done (accs.map epsV) rest :=
+    fun done rest accs h1 h2 => loopLF_hom V3.add V3.add V3.zero V3.zero epsV dz1
+      (forcePair (Dual.const G) Scalar.zero (Dual.sqrtLift sq)) (var1Pair G sq) epsV_add rfl
+      (fun pi pj => PairOK sq pi.1 pj.1) (fun pi pj hp => var1_pair G sq pi pj hp) rest done accs h1 h2
+  have h0 := key [] ps [] (fun _ _ _ hq => by cases hq) h
+  match ign, ps, h with
+  | 0, ps, h => simpa [accBasicIgn, accVar1Ign, loopIgn] using key [] ps [] (fun _ _ _ hq => by cases hq) h
+  | 1, [], _ => rfl
+  | 1, [_], _ => rfl
+  | 1, p0 :: p1 :: rest, h =>
+    rw [List.pairwise_cons, List.pairwise_cons] at h
+    have := key [p0, p1] rest [V3.zero, V3.zero]
+      (fun pi hpi pj hpj => by
+        rcases List.mem_cons.mp hpj with hj | hj
+        · subst hj; exact h.1 pi (by simp [hpi])
+        · simp at hj; subst hj; exact h.2.1 pi hpi) h.2.2
+    have hz : epsV (V3.zero : V3 (Dual K)) = V3.zero := rfl
+    simpa [accBasicIgn, accVar1Ign, loopIgn, hz] using this
+  | 2, [], _ => rfl
+  | 2, [_], _ => rfl
+  | 2, p0 :: p1 :: rest, h =>
+    rw [List.pairwise_cons, List.pairwise_cons] at h
+    have := key [p1] rest [V3.zero]
+      (fun pi hpi pj hpj => by simp at hpj; subst hpj; exact h.2.1 pi hpi) h.2.2
+    have hz : epsV (V3.zero : V3 (Dual K)) = V3.zero := rfl
+    simp only [accBasicIgn, accVar1Ign, loopIgn, List.map_cons, List.map_nil, hz] at this ⊢
+    rw [this]
+  | n+3, ps, h => simpa [accBasicIgn, accVar1Ign, loopIgn] using key [] ps [] (fun _ _ _ hq => by cases hq) h
+
 /-! ### second order -/
 
 /-- **Second-order variational accelerations are the mixed second derivative.**
@@ -176,6 +216,34 @@ theorem c16_testparticle_massless_term (G : K) (sq : K → K) (x y z ddx ddy ddz
     V3.add a (tpVar1Term G sq x y z ddx ddy ddz pj) = a := by
   obtain ⟨ax, ay, az⟩ := a
   simp [V3.add, tpVar1Term, hm]
+
+/-! ### WHFast tangent map, Jacobi term of the interaction step -/
+
+/-- **Full statement (false of the code, F16).**  With the interior mass `η + ε·dη` the ε-part
+    of the Jacobi kick `dt·G·η·x/|x|³` is the code's variation (integrator_whfast.c:385-394)
+    *plus* the term `dt·G·dη·x/|x|³`, which the code does not have ("TODO Need to add mass
+    terms").  So the WHFast tangent map is the derivative of the WHFast map only when no
+    mass is varied. -/
+theorem c16_whfast_jacobi_term_full (G eta deta dt : K) (sq : K → K) (x y z dx dy dz : K)
+    (hs : sq (1 / (x*x + y*y + z*z)) * sq (1 / (x*x + y*y + z*z)) = 1 / (x*x + y*y + z*z))
+    (hne : sq (1 / (x*x + y*y + z*z)) ≠ 0) :
+    epsV (whJacKick (Dual.const G) ⟨eta, deta⟩ (Dual.const dt) Scalar.zero (Dual.sqrtLift sq) ⟨x, dx⟩ ⟨y, dy⟩ ⟨z, dz⟩)
+      = V3.add (whJacKickVar G eta dt Scalar.zero sq x y z dx dy dz)
+          (let c := dt * (sq (1 / (x*x + y*y + z*z)) * (1 / (x*x + y*y + z*z)) * G * deta); ⟨c*x, c*y, c*z⟩) :=
+  whJac_full G eta deta dt sq x y z dx dy dz hs hne
+
+/-- partial: the extra hypothesis `dη = 0` (no variational masses) names finding F16.
+    Only the Jacobi term of the interaction step is covered; the tangent map of the Kepler
+    solver (`dX, dG, df, dg…`, integrator_whfast.c:310-342) is not proved, only searched. -/
+theorem c16_whfast_jacobi_term_partial (G eta dt : K) (sq : K → K) (x y z dx dy dz : K)
+    (hs : sq (1 / (x*x + y*y + z*z)) * sq (1 / (x*x + y*y + z*z)) = 1 / (x*x + y*y + z*z))
+    (hne : sq (1 / (x*x + y*y + z*z)) ≠ 0) :
+    epsV (whJacKick (Dual.const G) (Dual.const eta) (Dual.const dt) Scalar.zero (Dual.sqrtLift sq) ⟨x, dx⟩ ⟨y, dy⟩ ⟨z, dz⟩)
+      = whJacKickVar G eta dt Scalar.zero sq x y z dx dy dz := by
+  have := whJac_full G eta 0 dt sq x y z dx dy dz hs hne
+  simp only [mul_zero, zero_mul] at this
+  rw [show (Dual.const eta : Dual K) = ⟨eta, 0⟩ from rfl, this]
+  simp [V3.add]
 
 /-! ### move_to_com -/
 
